@@ -141,7 +141,7 @@ def run_shards(cfg, work, bins, tier, replay=None, seed=0):
         nsh = u.get("shards", cfg.get("shards", {})).get(tier, 1) if isinstance(u.get("shards", cfg.get("shards", {})), dict) else 1
         if replay:
             nsh = 1
-        nsh = max(1, min(nsh, ncpu))
+        nsh = max(1, min(nsh, ncpu, int(os.environ.get('VERIF_MAX_SHARDS', '64'))))
         order = list(range(nsh))
         if seed:
             order = order[seed % nsh:] + order[:seed % nsh]
